@@ -53,6 +53,10 @@ def replay(rec):
             r = ob.body(*args)
         except Exception as e:  # noqa
             tb = traceback.extract_tb(e.__traceback__)
+            if isinstance(e, (NameError, UnboundLocalError)) and tb and tb[-1].filename.startswith("<"):
+                # the statement slice taken from the current AST no longer stands on its own
+                # (a name it uses is now defined outside the sliced statements): nothing was decided
+                return {"outcome": "slice-broken", "tag": "%s in %s: %s" % (type(e).__name__, tb[-1].filename, str(e)[:200])}
             inner = ""
             for fr in reversed(tb):
                 if "/praatio/" in fr.filename:
